@@ -616,6 +616,15 @@ func c08(c *ctx) error {
 		for i := 0; i < nOps; i++ {
 			repo := repoOf()
 			switch k := r.Intn(20); {
+			case k == 19 && r.Intn(3) == 0: // a bundle goes, with its labels (mostly one of this repository)
+				ranks := e.ofRepo[repo]
+				if len(ranks) == 0 || r.Intn(6) == 0 {
+					ranks = nil
+					for j := range e.bundles {
+						ranks = append(ranks, j)
+					}
+				}
+				e.delBundle(repo, ranks[r.Intn(len(ranks))])
 			case k < 8:
 				ranks := e.ofRepo[repo]
 				if len(ranks) == 0 || r.Intn(12) == 0 { // a bundle of another repo: the core API does not look
